@@ -62,7 +62,7 @@ class LimitLoops(Contract):
         ]
         excl = V('opt', None, isnone=z3.Not(self.has_excl), inner=ObjV(z3.Const('exclude', Obj)))
         params = dict(patterns=ObjV(z3.Const('patterns', Obj)), flags=Flags(self.F), limit=Int(self.L), exclude=excl)
-        ghost = {'$pulled': z3.IntVal(0), '$F0': self.F}
+        ghost = {'$pulled': z3.IntVal(0), '$F0': self.F, '$seen_g': z3.EmptySet(z3.StringSort())}
         return dict(params=params, pre=pre, ghost=ghost)
 
     # ---------------- hooks
@@ -173,7 +173,7 @@ class LimitLoops(Contract):
                           z3.Implies(me.L > 0, z3.And(total <= me.L, cl == z3.If(me.L - total >= 1, me.L - total, 1))),
                           z3.Implies(me.L <= 0, cl == me.L),
                           st.env['positive'].a['length'] >= 0, st.env['negative'].a['length'] >= d,
-                          st.env['flags'].t == me.Floop(st))
+                          st.env['flags'].t == me.Floop(st), st.env['seen'].t == st.ghost['$seen_g'])
 
         def inv2(st, j):
             k = st.ghost['$k1']
@@ -182,7 +182,7 @@ class LimitLoops(Contract):
             return z3.And(lim == me.L, st.env['count'].t == j, total == d + S(k) + j, st.ghost['$pulled'] == S(k) + j,
                           z3.Implies(me.L > 0, total <= me.L),
                           st.env['positive'].a['length'] >= 0, st.env['negative'].a['length'] >= d,
-                          st.env['flags'].t == me.Floop(st))
+                          st.env['flags'].t == me.Floop(st), st.env['seen'].t == st.ghost['$seen_g'])
         return {1: ('iter_patterns(patterns)', inv1), 2: ('expand(pattern, flags, current_limit)', inv2)}
 
     def d0(self, st):
@@ -192,7 +192,7 @@ class LimitLoops(Contract):
     def Floop(self, st):
         return st.ghost.get('$Floop', self.F)
 
-    loop_ghosts = {1: ('$pulled',), 2: ('$pulled',)}
+    loop_ghosts = {1: ('$pulled', '$seen_g'), 2: ('$pulled', '$seen_g')}
 
     @property
     def axioms_at(self):
@@ -213,6 +213,9 @@ class LimitLoops(Contract):
         def e1(eng, st, node):
             st.ghost['$d0'] = st.env['total'].t
             st.ghost['$Floop'] = st.env['flags'].t
+            # ghost: the set of raw expansion texts handled so far; `seen` must equal it (one compile per distinct raw text:
+            # an inclusion `p` and an inline exclusion `!p` are different texts)
+            st.ghost['$seen_g'] = st.env['seen'].t
             F0 = me.F
             base = z3.If(me.has_excl, F0 & ~bv(WC['NEGATE'] | WC['NEGATEALL']), F0)
             want = base if q == 'compile_pattern' else (base | bv(WC['_TRANSLATE'])) & bv(WC['FLAG_MASK'])
@@ -232,6 +235,7 @@ class LimitLoops(Contract):
 
         def o2(eng, st, j):
             st.ghost['$pulled'] = st.ghost['$pulled'] + 1
+            st.ghost['$seen_g'] = z3.SetAdd(st.ghost['$seen_g'], EXPN(st.ghost['$k1'], j))
         return {1: o1, 2: o2}
 
     # ---------------- postconditions
